@@ -70,7 +70,7 @@ Lemma delete_key_view s d k :
   list_frame s (delete_key s d k) d /\ lview (delete_key s d k) d = delete k (lview s d).
 Proof.
   split.
-  - repeat split; auto.
+  - repeat split; auto using delete_key_now, delete_key_maxmem, delete_key_noevict.
     + intros d' k' Hd. rewrite delete_key_lentry. rewrite decide_False; [done|]. intros [? _]; done.
     + intros k'. rewrite delete_key_lentry. destruct (decide _); [by right; right|by left].
   - apply lview_ext. intros k'. unfold live. rewrite delete_key_lentry.
